@@ -298,8 +298,7 @@ class CStr(Sym):
     def isdigit(s):
         if not s.c:
             return False
-        return SBool(z3.And(*[z3.And(_cz(ch) >= 48, _cz(ch) <= 57) for ch in s.c])) \
-            if all(True for _ in s.c) else False
+        return SBool(z3.And(*[z3.And(_cz(ch) >= 48, _cz(ch) <= 57) for ch in s.c]))
 
     def replace(s, old, new, count=-1):
         old = CStr.of(old); new = CStr.of(new)
@@ -411,8 +410,10 @@ def render_int(x, maxd=40):
     ds = [z3.Int('%s_%d' % (pre, i)) for i in range(nd)]
     for d in ds:
         E.add(d >= 48); E.add(d <= 57)
+        E.declare_range(d, 48, 57)
     if nd > 1:
         E.add(ds[0] != 48)
+        E.declare_range(ds[0], 49, 57)
     E.add(digits_val(ds) == a)
     return CStr(([45] if neg else []) + ds, intval=x)
 
@@ -431,6 +432,7 @@ def render_int_padded(x, width):
         ds = [z3.Int('%s_%d' % (pre, i)) for i in range(width)]
         for d in ds:
             E.add(d >= 48); E.add(d <= 57)
+            E.declare_range(d, 48, 57)
         E.add(digits_val(ds) == x.z)
         return CStr(ds)
     return render_int(x)
@@ -768,3 +770,119 @@ def re_split(pat, s, maxsplit=0):
         n += 1
     out.append(s._mk(s.c[last:]))
     return out
+
+
+# ------------------------------------------------------------------ non-forking membership
+def _and(a, b):
+    if a is False or b is False:
+        return False
+    if a is True:
+        return b
+    if b is True:
+        return a
+    return z3.And(a, b)
+
+
+def _or(a, b):
+    if a is True or b is True:
+        return True
+    if a is False:
+        return b
+    if b is False:
+        return a
+    return z3.Or(a, b)
+
+
+def _qb(cond):
+    """z3 Bool -> python bool when decidable from declared domains, else the term"""
+    cond = z3.simplify(cond)
+    if z3.is_true(cond):
+        return True
+    if z3.is_false(cond):
+        return False
+    q = E.quick(cond)
+    return cond if q is None else q
+
+
+def _merge(out, pos, cond):
+    if cond is False:
+        return
+    out[pos] = _or(out.get(pos, False), cond)
+
+
+def _char_test(op, av, ch, flags):
+    ic = bool(flags & re.IGNORECASE)
+    c = _cz(ch)
+    if op is sre_c.LITERAL:
+        return _qb(_lit(c, av, ic))
+    if op is sre_c.NOT_LITERAL:
+        return _qb(z3.Not(_lit(c, av, ic)))
+    if op is sre_c.ANY:
+        return True if flags & re.DOTALL else _qb(c != 10)
+    if op is sre_c.IN:
+        for iop, iav in av:
+            if iop is sre_c.CATEGORY and not (flags & re.ASCII):
+                if z3.is_expr(ch):
+                    if _qb(c > 127) is not False:
+                        raise Unsupported('unicode category test on possibly non-ASCII symbolic char')
+                elif ch > 127:
+                    raise Unsupported('unicode category test on non-ASCII char')
+        return _qb(_in_class(ch, [x for x in av], flags | re.ASCII, ic))
+    raise Unsupported('regex op %r' % (op,))
+
+
+def _ms(seq, s, starts, flags):
+    cur = starts
+    n = len(s.c)
+    for op, av in seq:
+        if not cur:
+            return {}
+        out = {}
+        if op in (sre_c.LITERAL, sre_c.NOT_LITERAL, sre_c.ANY, sre_c.IN):
+            for pos, c in cur.items():
+                if pos < n:
+                    _merge(out, pos + 1, _and(c, _char_test(op, av, s.c[pos], flags)))
+        elif op is sre_c.SUBPATTERN:
+            gid, add_flags, del_flags, sub = av
+            out = _ms(list(sub), s, cur, (flags | add_flags) & ~del_flags)
+        elif op is sre_c.BRANCH:
+            for b in av[1]:
+                for pos, c in _ms(list(b), s, cur, flags).items():
+                    _merge(out, pos, c)
+        elif op in (sre_c.MAX_REPEAT, sre_c.MIN_REPEAT):
+            lo, hi, sub = av
+            sub = list(sub)
+            it = cur
+            i = 0
+            while True:
+                if i >= lo:
+                    for pos, c in it.items():
+                        _merge(out, pos, c)
+                if (hi is not sre_c.MAXREPEAT and i >= hi) or not it or i > n + lo:
+                    break
+                nxt = _ms(sub, s, it, flags)
+                if i >= lo:
+                    # drop non-progressing iterations (empty matches add nothing new)
+                    nxt = {p: c for p, c in nxt.items() if not (p in it and it[p] is c)}
+                it = nxt
+                i += 1
+        elif op is sre_c.AT:
+            if av in (sre_c.AT_END_STRING, sre_c.AT_END):
+                out = {p: c for p, c in cur.items() if p == n}
+            elif av in (sre_c.AT_BEGINNING, sre_c.AT_BEGINNING_STRING):
+                out = {p: c for p, c in cur.items() if p == 0}
+            else:
+                raise Unsupported('regex anchor %r' % (av,))
+        else:
+            raise Unsupported('regex op %r in membership test' % (op,))
+        cur = out
+    return cur
+
+
+def re_member(pat, s):
+    """s in L(pat) (whole string) as a python bool or z3 Bool; never forks"""
+    if isinstance(pat, str):
+        pat = re.compile(pat)
+    tree = _parse(pat)
+    ends = _ms(list(tree), s, {0: True}, pat.flags)
+    return ends.get(len(s.c), False)
